@@ -85,10 +85,14 @@ SPDINT(d) ==
       [] d = 2 -> << Q(<< <<2, 1>>, <<1, 2>> >>, 1), Q(<< <<3, -1>>, <<-1, 1>> >>, 1), Q(<< <<5, 2>>, <<2, 1>> >>, 1) >>
       [] d = 3 -> << Q(<< <<2, 1, 0>>, <<1, 2, 1>>, <<0, 1, 2>> >>, 1), Q(<< <<3, -1, 1>>, <<-1, 2, 0>>, <<1, 0, 1>> >>, 1),
                      Q(<< <<2, 0, 1>>, <<0, 1, 0>>, <<1, 0, 3>> >>, 1) >>
+      [] d = 4 -> << Q(<< <<2, 1, 0, 0>>, <<1, 2, 1, 0>>, <<0, 1, 2, 1>>, <<0, 0, 1, 2>> >>, 1),
+                     Q(<< <<3, -1, 1, 0>>, <<-1, 2, 0, 1>>, <<1, 0, 2, 0>>, <<0, 1, 0, 2>> >>, 1),
+                     Q(<< <<4, 1, 0, -1>>, <<1, 3, 1, 0>>, <<0, 1, 2, 0>>, <<-1, 0, 0, 1>> >>, 1) >>
 VECINT(d) ==
     CASE d = 1 -> << Q(<<1>>, 1), Q(<<-2>>, 1), Q(<<3>>, 1) >>
       [] d = 2 -> << Q(<<1, -1>>, 1), Q(<<-2, 3>>, 1), Q(<<0, 2>>, 1) >>
       [] d = 3 -> << Q(<<1, -1, 2>>, 1), Q(<<-2, 3, 1>>, 1), Q(<<0, 2, -1>>, 1) >>
+      [] d = 4 -> << Q(<<1, -1, 2, 0>>, 1), Q(<<-2, 3, 1, 1>>, 1), Q(<<0, 2, -1, 3>>, 1) >>
 
 ANewPdfInt(d, R, s) ==
     LET qS == Pick(SPDINT(d), R, s)
